@@ -74,6 +74,7 @@ func (x *Exec) step(fr *Frame, ins ssa.Instruction) {
 		if p.Obj == nil {
 			panic(goPanic{Msg: "nil pointer dereference (field address)"})
 		}
+		x.ensureNonNil(p)
 		fr.Regs[i] = PtrV{Obj: p.Obj, Path: appendPath(p.Path, i.Field)}
 	case *ssa.Field:
 		fr.Regs[i] = x.fieldOf(x.get(fr, i.X), i.Field)
@@ -161,11 +162,26 @@ func (x *Exec) load(pv Value) Value {
 	if p.Obj == nil {
 		panic(goPanic{Msg: "nil pointer dereference"})
 	}
+	x.ensureNonNil(p)
+	return x.loadRaw(p)
+}
+
+func (x *Exec) loadRaw(p PtrV) Value {
 	v := p.Obj.Val
 	for _, k := range p.Path {
 		v = x.child(v, k)
 	}
 	return v
+}
+
+// ensureNonNil decides a symbolic presence condition when the pointer is dereferenced.
+func (x *Exec) ensureNonNil(p PtrV) {
+	if p.Cond == nil {
+		return
+	}
+	if !x.Branch(p.Cond) {
+		panic(goPanic{Msg: "nil pointer dereference (absent optional field)"})
+	}
 }
 
 func (x *Exec) child(v Value, k int) Value {
@@ -189,6 +205,10 @@ func (x *Exec) store(pv Value, val Value) {
 	}
 	if p.Obj == nil {
 		panic(goPanic{Msg: "nil pointer dereference (store)"})
+	}
+	x.ensureNonNil(p)
+	if x.merge != nil && p.Obj.ID <= x.merge.objLim {
+		x.Unsupported("side effect inside a merged pure callee")
 	}
 	p.Obj.Val = x.update(p.Obj.Val, p.Path, val)
 }
@@ -577,6 +597,24 @@ func (x *Exec) valuesEqual(a, b Value) *smt.Term {
 	an, aok := isNilValue(a)
 	bn, bok := isNilValue(b)
 	if aok && bok && (an || bn) {
+		// symbolic nil-ness: optional pointers and opaque byte strings
+		other := a
+		if an {
+			other = b
+		}
+		if an && bn {
+			return B.True
+		}
+		switch o := other.(type) {
+		case PtrV:
+			if o.Cond != nil {
+				return B.Not(o.Cond)
+			}
+		case SliceV:
+			if o.Atom != nil {
+				return B.Eq(o.Atom, B.StrConst(""))
+			}
+		}
 		return B.Bool(an && bn)
 	}
 	switch av := a.(type) {
